@@ -9,6 +9,7 @@ import EngineModel.Driver.Loop
 import EngineModel.Driver.Text
 import EngineModel.Driver.Values
 import EngineModel.Table.Track
+import EngineModel.Table.Lists
 
 open EngineModel EngineModel.Text EngineModel.Table
 
@@ -136,12 +137,32 @@ def trackCols (s : Schema2) : List TCol :=
   TCol.all.filter fun c =>
     if c = .activeOnLoadLoops then s.ge .s2_20_1 else if c = .lastEditTime then s.ge .s2_20_3 else true
 
+/-! ## keeping rows strict
+
+Model rows are functions column → value; a row that went through several
+statements is a tower of closures whose tests are re-evaluated on every lookup.
+After each command the driver replaces every row by a table of its values
+(extensionally the same function). -/
+
+@[noinline] def ofAssoc {C : Type} [DecidableEq C] (l : List (C × Val)) (c : C) : Val :=
+  (l.lookup c).getD .null
+
+/-- The values of every row, as data (forces every lookup once). -/
+@[noinline] def dataOf {C : Type} (cols : List C) (t : Rows C) : List (List (C × Val)) :=
+  t.map fun r => cols.map fun c => (c, r c)
+
+@[noinline] def rowsOf {C : Type} [DecidableEq C] (d : List (List (C × Val))) : Rows C :=
+  d.map fun l => ofAssoc l
+
+def freezeRows {C : Type} [DecidableEq C] (cols : List C) (t : Rows C) : Rows C := rowsOf (dataOf cols t)
+
 /-! ## state and commands -/
 
 structure St where
   schema : Option Schema2 := none
   stmts : Option TStmts := none
   t : TDb := TDb.empty
+  l : LDb := LDb.empty
 
 instance : Inhabited St := ⟨{}⟩
 
@@ -155,11 +176,15 @@ def renderRow {F : Type} (fields : List F) (r : Res (Option (Row F))) : String :
     | none => "none"
     | some g => sRowOf fields g
 
-def step (st : St) (cmd : String) (args : List String) : St × String :=
+def freezeSt (st : St) : St :=
+  { st with t := { st.t with rows := freezeRows TCol.all st.t.rows },
+            l := { st.l with pl := freezeRows PCol.all st.l.pl, pe := freezeRows ECol.all st.l.pe } }
+
+def step0 (st : St) (cmd : String) (args : List String) : St × String :=
   match cmd, args with
   | "tt.create", [n] =>
     match schemaOf n with
-    | some s => ({ schema := some s, stmts := genStmts s, t := TDb.empty }, "ok")
+    | some s => ({ schema := some s, stmts := genStmts s, t := TDb.empty, l := LDb.empty }, "ok")
     | none => (st, "bad-op schema")
   | _, _ =>
   match st.schema, st.stmts with
@@ -218,6 +243,57 @@ def step (st : St) (cmd : String) (args : List String) : St × String :=
         | none => (st, "bad-op value")
       | _, _ => (st, "bad-op args")
     | "tt.raw", [] => (st, "ok " ++ sRaw (trackCols s) TCol.name st.t.seq st.t.rows)
+    -- playlist_table
+    | "tpl.add", toks =>
+      match runP (pRowOf PField.all PField.ty) toks with
+      | none => (st, "bad-op row")
+      | some r =>
+        let (d, res) := pAdd genLStmts st.l r
+        ({ st with l := d }, res.render toString)
+    | "tpl.update", toks =>
+      match runP (pRowOf PField.all PField.ty) toks with
+      | none => (st, "bad-op row")
+      | some r =>
+        let (d, res) := pUpdate genLStmts st.l r
+        ({ st with l := d }, renderUnit res)
+    | "tpl.get", [i] =>
+      match i.toInt? with
+      | some i => (st, renderRow PField.all (pGet genLStmts st.l i))
+      | none => (st, "bad-op int")
+    | "tpl.remove", [i] =>
+      match i.toInt? with
+      | some i =>
+        let (d, res) := pRemove genLStmts st.l i
+        ({ st with l := d }, renderUnit res)
+      | none => (st, "bad-op int")
+    | "tpl.exists", [i] =>
+      match i.toInt? with
+      | some i => (st, if pExists st.l i then "ok 1" else "ok 0")
+      | none => (st, "bad-op int")
+    | "tpl.ids", [] => (st, "ok " ++ showIds (sortInts (pIds st.l)))
+    | "tpl.raw", [] => (st, "ok " ++ sRaw PCol.all PCol.name st.l.plSeq st.l.pl)
+    -- playlist_entity_table
+    | "tpe.add", toks =>
+      match runP (do let r ← pRowOf EField.all EField.ty; let b ← pBool; pure (r, b)) toks with
+      | none => (st, "bad-op row")
+      | some (r, dup) =>
+        let (d, res) := eAddBack genLStmts st.l r dup
+        ({ st with l := d }, res.render toString)
+    | "tpe.get", [l, t] =>
+      match l.toInt?, t.toInt? with
+      | some l, some t => (st, renderRow EField.all (eGet genLStmts st.l l t))
+      | _, _ => (st, "bad-op int")
+    | "tpe.remove", [l, e] =>
+      match l.toInt?, e.toInt? with
+      | some l, some e =>
+        let (d, res) := eRemove genLStmts st.l l e
+        ({ st with l := d }, renderUnit res)
+      | _, _ => (st, "bad-op int")
+    | "tpe.clear", [l] =>
+      match l.toInt? with
+      | some l => ({ st with l := eClear st.l l }, "ok")
+      | none => (st, "bad-op int")
+    | "tpe.raw", [] => (st, "ok " ++ sRaw ECol.all ECol.name st.l.peSeq st.l.pe)
     | _, _ => (st, "bad-op unknown")
   | _, _ => (st, "bad-op no table-api library")
 
@@ -251,6 +327,20 @@ def specTable (cmd : String) (args : List String) : Option String :=
         pure (normSetT s u c f v r)) args with
       | some r => "ok " ++ sRowOf TField.all r
       | none => "bad-op args"
+  | "c18.norm.playlist" =>
+    some <| match runP (do
+        let i ← pIntAny
+        let r ← pRowOf PField.all PField.ty
+        pure (normRowP i r)) args with
+      | some r => "ok " ++ sRowOf PField.all r
+      | none => "bad-op args"
+  | "c18.norm.entity" =>
+    some <| match runP (do
+        let i ← pIntAny
+        let r ← pRowOf EField.all EField.ty
+        pure (normRowE i r)) args with
+      | some r => "ok " ++ sRowOf EField.all r
+      | none => "bad-op args"
   | "c18.acc.track" =>
     some <| match runP (do
         let f ← pField
@@ -259,6 +349,13 @@ def specTable (cmd : String) (args : List String) : Option String :=
       | some v => "ok " ++ sFVal v
       | none => "bad-op args"
   | _ => none
+
+def step (st : St) (cmd : String) (args : List String) : St × String :=
+  match specTable cmd args with
+  | some out => (st, out)        -- Spec commands: no state
+  | none =>
+    let (st', out) := step0 st cmd args
+    (freezeSt st', out)
 
 def mode : Drv.Mode := Drv.mkMode "tableapi" ({} : St) step
 
